@@ -26,6 +26,8 @@ mod aggregator;
 mod forge;
 #[path = "c20_parts/gadget.rs"]
 mod gadget;
+#[path = "c20_parts/fold.rs"]
+mod fold;
 #[path = "c20_parts/ipa.rs"]
 mod ipa;
 
@@ -48,11 +50,12 @@ fn part_a(ctx: &Ctx, rep: &mut Report) -> bool {
     let mut specs: Vec<(&str, u32)> = vec![];
     if thorough {
         specs.extend([("poseidon", 6), ("poseidon", 8), ("poseidon", 10), ("arith", 9), ("arith", 10)]);
-        specs.extend([("rot0", 5), ("rot1", 6), ("rot2", 8)]);
+        specs.extend([("rot0", 5), ("rot1", 6), ("rot2", 8), ("cols2", 5), ("cols2", 7)]);
     } else {
         specs.push(("poseidon", rng.gen_range(6..=10)));
         specs.push(("arith", rng.gen_range(9..=10)));
         specs.push((["rot0", "rot1", "rot2"][rng.gen_range(0..3usize)], rng.gen_range(5..=8)));
+        specs.push(("cols2", rng.gen_range(5..=8)));
     }
     let mut cases = vec![];
     for (i, (what, k)) in specs.iter().enumerate() {
@@ -62,6 +65,7 @@ fn part_a(ctx: &Ctx, rep: &mut Report) -> bool {
             "rot0" => gd::rot_case(0, *k, seed),
             "rot1" => gd::rot_case(1, *k, seed),
             "rot2" => gd::rot_case(2, *k, seed),
+            "cols2" => gd::twocol_case(*k, seed),
             _ => gd::arith_case(*k, seed),
         });
         match c {
@@ -134,7 +138,7 @@ fn part_a(ctx: &Ctx, rep: &mut Report) -> bool {
                 });
             }
         }
-        plan.truncate(10);
+        plan.truncate(13);
     } else {
         plan.truncate(120);
     }
@@ -280,6 +284,9 @@ fn main() {
     }
     if part.is_empty() || part == "c" {
         ipa::run(&ctx, &mut rep);
+    }
+    if part.is_empty() || part == "e" {
+        fold::run(&ctx, &mut rep);
     }
     if part.is_empty() || part == "a" {
         complete &= part_a(&ctx, &mut rep);
